@@ -371,9 +371,13 @@ def save_params(args):
             vals[1] = os.path.abspath(vals[1])
             args.read_group = ":".join(vals)
 
-    pickler = pickle.Pickler(open(args.param_file, "wb"),  -1)
-    pickler.dump(args)
-    pass
+    # the file is replaced in one step: a run killed right here (--resume saves the parameters again)
+    # must not leave truncated parameters behind
+    tmp_param_file = args.param_file + ".tmp"
+    with open(tmp_param_file, "wb") as param_dump:
+        pickler = pickle.Pickler(param_dump,  -1)
+        pickler.dump(args)
+    os.replace(tmp_param_file, args.param_file)
 
 
 # Check user's params
